@@ -110,6 +110,9 @@ func init() {
 	})
 	// C36: managed mode, caller-chosen timestamps
 	register("C36", func(c *Ctx) error {
+		if err := runC36ImmMemtables(c); err != nil {
+			return err
+		}
 		return runSysProfile(c, func(i int) *profile {
 			p := &profile{name: "managed", managed: true, monotone: true, wBegin: 6, wModify: 14, wGet: 10, wIter: 5, wCommit: 8, wDiscard: 1, wFlush: 4, wCompact: 5, wSetDiscard: 3, wBatch: 3,
 				nOps: 50 + c.Rng.Intn(50), keys: keySetA[:3+c.Rng.Intn(6)], allVersions: true, reverse: true, discardBit: true,
